@@ -119,8 +119,8 @@ def add_links(rng, top):
     for rel, page, is_index in all_pages(top):
         if page["title"] is None or not targets:
             continue
-        for _ in range(rng.randint(0, 3)):
-            kind = rng.choice(["page_alias", "relative", "media", "url", "html_block"])
+        for _ in range(rng.randint(1, 4)):
+            kind = rng.choice(["page_alias", "page_alias", "page_alias", "relative", "media", "url", "html_block"])
             tgt = rng.choice(popular) if rng.random() < 0.7 else rng.choice(targets)
             page["links"].append([kind, tgt])
 
